@@ -98,7 +98,8 @@ Proof. unfold op_shift. apply set_links_pub. Qed.
 (* ---- ts << vs, ts >> vs on a task list: a loop, not atomic across elements ---- *)
 Theorem lst_shift_pub dir s ts vs y : pub (fst (lst_shift dir s ts vs)) y <-> pub s y.
 Proof.
-  unfold lst_shift.
+  unfold lst_shift, all_or_nothing.
+  destruct (snd (lst_shift_seq dir s ts vs)) as [[]| |c]; cbn [fst]; [|reflexivity..]. unfold lst_shift_seq.
   apply (seq_calls_inv (fun s' => pub s' y <-> pub s y) (fun s' t => op_shift dir s' t vs)); [|reflexivity].
   intros s' c _ H. rewrite op_shift_pub. exact H.
 Qed.
@@ -106,7 +107,8 @@ Qed.
 Theorem lst_shift_WF dir s ts vs :
   WF s -> (forall t, In t ts -> pub s t) -> pubs s vs -> WF (fst (lst_shift dir s ts vs)).
 Proof.
-  intros W Pt Pv. unfold lst_shift.
+  intros W Pt Pv. unfold lst_shift, all_or_nothing.
+  destruct (snd (lst_shift_seq dir s ts vs)) as [[]| |c]; cbn [fst]; [|exact W..]. unfold lst_shift_seq.
   apply (seq_calls_inv (fun s' => WF s' /\ forall y, pub s' y <-> pub s y) (fun s' t => op_shift dir s' t vs));
     [|split; [exact W|reflexivity]].
   intros s' t Ht [W' E]. split.
